@@ -54,13 +54,13 @@ package cache
 //@ # the table lookup (LookupByKey) has no contract: it may return ANY entry (hash collision included)
 //@ func (*Store).LookupByKeyVerified
 //@   requires storeWF(s)
-//@   modifies pkgheap("internal/cache")
+//@   modifies tableContent
 //@   ensures result1 ==> matchesPre(result0, want.Question.Qtype, want.Question.Qclass, want.CD, want.Scope) && eqFold(result0.question.Name, want.Question.Name)
 //@   ensures !result1 ==> result0 == nil
 //@
 //@ func (*Store).Lookup
 //@   requires req != nil && storeWF(s)
-//@   modifies pkgheap("internal/cache")
+//@   modifies tableContent
 //@   ensures result1 ==> len(req.Question) > 0 && matchesPre(result0, req.Question[0].Qtype, req.Question[0].Qclass, req.CheckingDisabled, netip.Prefix{}) && eqFold(result0.question.Name, req.Question[0].Name)
 //@
 //@ func (CacheKey).Hash
@@ -71,16 +71,16 @@ package cache
 //@   modifies nothing
 //@ func (*PositiveCache).Get
 //@   assume at after call (*internal/cache.Cache).Get#1: result1 ==> dyntype(result0, *CacheEntry) && entryWF(as(result0, *CacheEntry))
-//@   requires pc != nil && pc.cache != nil
-//@   modifies pkgheap("internal/cache")
+//@   requires pc != nil && cacheWF(pc.cache)
+//@   modifies tableContent
 //@ func (*NegativeCache).Get
 //@   assume at after call (*internal/cache.Cache).Get#1: result1 ==> dyntype(result0, *CacheEntry) && entryWF(as(result0, *CacheEntry))
-//@   requires nc != nil && nc.cache != nil
-//@   modifies pkgheap("internal/cache")
+//@   requires nc != nil && cacheWF(nc.cache)
+//@   modifies tableContent
 //@ func (*Store).LookupByKey
 //@   requires storeWF(s)
-//@   modifies pkgheap("internal/cache")
-//@ pred storeWF(s *Store) := s != nil && s.positive != nil && s.negative != nil && s.positive.cache != nil && s.negative.cache != nil
+//@   modifies tableContent
+//@ pred storeWF(s *Store) := s != nil && s.positive != nil && s.negative != nil && cacheWF(s.positive.cache) && cacheWF(s.negative.cache)
 //@
 //@ # ---- C04: remaining lifetime = min(ttl - elapsed, cut - now); never grows with time
 //@ pred entryWF(e *CacheEntry) := e != nil && 0 <= e.ttl && e.ttl <= 4294967296000000000 && real(e.stored) && (tzero(e.cutUntil) || real(e.cutUntil))
@@ -198,7 +198,7 @@ package cache
 //@ pred feInv(e *failureEntry) := e != nil && e.streak >= 1 && real(e.retryAfter)
 //@
 //@ func (*FailureCache).record
-//@   requires fcInv(c) && c.entries != nil && candidate != nil
+//@   requires fcInv(c) && cacheWF(c.entries) && candidate != nil
 //@   assume at after call (*middleware/cache.FailureCache).loadEntry#1: result1 ==> feInv(result0)
 //@   loop 1 invariant true
 //@   assert at return: result.Streak >= 1 && real(result.RetryAfter)
